@@ -283,6 +283,9 @@ func checkC02(c *Check) {
 
 	// ---------- 6: base selection ----------
 	checkBaseSelection(c)
+
+	// ---------- 7-10: reader, fresh bases, no dropped step, no remembered state ----------
+	checkC02Reader(c)
 }
 
 func sortedHelpers(m map[*ssa.Function]*helperInfo) []*helperInfo {
